@@ -550,3 +550,263 @@ pub fn cmd_refs(t: &mut Toks, root: &std::path::Path) -> String {
         byid_diff
     )
 }
+
+// ---------------------------------------------------------------- schedule controller (C14)
+use std::sync::{Arc, Condvar};
+
+#[derive(Clone, PartialEq, Debug)]
+enum TState {
+    Running,
+    AtPoint(&'static str),
+    Done,
+}
+
+struct Ctl {
+    states: Vec<TState>,
+    turn: Option<usize>,
+    trace: Vec<(usize, &'static str)>,
+    free: bool,
+}
+
+/// parked at this point, the thread holds the LMDB write lock (acquired, not yet committed)
+fn holds_write_lock(name: &str) -> bool {
+    matches!(
+        name,
+        "store:txn" | "store:checked" | "store:preremoved" | "append:padded" | "append:half-copied" | "append:set-len"
+            | "append:resized" | "append:returned" | "store:appended" | "store:indexed" | "store:before-commit"
+            | "remove:txn" | "remove:before-commit"
+    )
+}
+
+thread_local! {
+    static MY_TID: std::cell::Cell<usize> = const { std::cell::Cell::new(usize::MAX) };
+}
+
+static CTL: Mutex<Option<Arc<(Mutex<Ctl>, Condvar)>>> = Mutex::new(None);
+
+fn ctl_point(name: &'static str) {
+    let tid = MY_TID.with(|c| c.get());
+    if tid == usize::MAX {
+        return; // not a controlled thread (setup / final observation)
+    }
+    let ctl = match CTL.lock().unwrap().as_ref() {
+        Some(c) => c.clone(),
+        None => return,
+    };
+    let (m, cv) = &*ctl;
+    let mut g = m.lock().unwrap();
+    g.states[tid] = TState::AtPoint(name);
+    cv.notify_all();
+    while g.turn != Some(tid) && !g.free {
+        g = cv.wait(g).unwrap();
+    }
+    if g.free {
+        g.states[tid] = TState::Running;
+        return;
+    }
+    g.turn = None;
+    g.states[tid] = TState::Running;
+    g.trace.push((tid, name));
+    cv.notify_all();
+}
+
+/// `conc L<names> n:<seed> n:<switch_permille> ; S ; setup ops ; T ; ops of thread 0 ; T ; ops of thread 1 ...`
+pub fn cmd_conc(t: &mut Toks, root: &std::path::Path, line: &str) -> String {
+    let names = t.list(&mut |t| t.b());
+    let seed = t.n() as u64;
+    let switch = t.n() as u64;
+    // split the op text per section
+    let body = &line[line.find(" ; ").map(|i| i + 3).unwrap_or(line.len())..];
+    let mut setup: Vec<String> = Vec::new();
+    let mut finalops: Vec<String> = Vec::new();
+    let mut progs: Vec<Vec<String>> = Vec::new();
+    let mut cur: Option<usize> = None;
+    let mut in_final = false;
+    for part in body.split(" ; ") {
+        let part = part.trim();
+        if part == "S" {
+            cur = None;
+        } else if part == "F" {
+            in_final = true;
+        } else if in_final {
+            finalops.push(part.to_string());
+        } else if part == "T" {
+            progs.push(Vec::new());
+            cur = Some(progs.len() - 1);
+        } else if !part.is_empty() {
+            match cur {
+                None => setup.push(part.to_string()),
+                Some(i) => progs[i].push(part.to_string()),
+            }
+        }
+    }
+    let mut h = Hist::new(names, root);
+    for op in setup.iter() {
+        let l = format!("; {op}");
+        let mut tt = Toks::new(&l);
+        let _ = tt.next();
+        let _ = h.op(&mut tt);
+    }
+    let nthreads = progs.len();
+    let ctl = Arc::new((Mutex::new(Ctl { states: vec![TState::Running; nthreads], turn: None, trace: Vec::new(), free: false }), Condvar::new()));
+    let free_running = switch == 9999;
+    if !free_running {
+        *CTL.lock().unwrap() = Some(ctl.clone());
+        pocket_db::verif::install(Box::new(ctl_point));
+    }
+    let responses: Arc<Mutex<Vec<(usize, usize, String)>>> = Arc::new(Mutex::new(Vec::new()));
+    // the store is used concurrently through a shared reference
+    let store: &Store = h.store.as_ref().unwrap();
+    let names_static = h.names.clone();
+    std::thread::scope(|s| {
+        for (tid, prog) in progs.iter().enumerate() {
+            let responses = responses.clone();
+            let ctl = ctl.clone();
+            let names_static = names_static.clone();
+            s.spawn(move || {
+                MY_TID.with(|c| c.set(tid));
+                for (n, op) in prog.iter().enumerate() {
+                    ctl_point("op:begin");
+                    let l = format!("; {op}");
+                    let mut tt = Toks::new(&l);
+                    let _ = tt.next();
+                    let r = std::panic::catch_unwind(std::panic::AssertUnwindSafe(|| conc_op(store, &names_static, &mut tt)));
+                    let r = r.unwrap_or_else(|_| "panic".to_string());
+                    responses.lock().unwrap().push((tid, n, r));
+                    ctl_point("op:end");
+                }
+                let (m, cv) = &*ctl;
+                let mut g = m.lock().unwrap();
+                g.states[tid] = TState::Done;
+                cv.notify_all();
+            });
+        }
+        // the controller
+        if free_running {
+            return;
+        }
+        let (m, cv) = &*ctl;
+        let mut x = seed | 1;
+        let mut last: Option<usize> = None;
+        let mut lock_holder: Option<usize> = None;
+        loop {
+            let mut g = m.lock().unwrap();
+            // wait until nobody is running (all at a point or done) - with a watchdog
+            let mut waited = 0;
+            while g.states.iter().any(|s| *s == TState::Running) || g.turn.is_some() {
+                let (ng, to) = cv.wait_timeout(g, std::time::Duration::from_millis(200)).unwrap();
+                g = ng;
+                if to.timed_out() {
+                    waited += 1;
+                    if waited > 50 {
+                        g.trace.push((usize::MAX, "WATCHDOG"));
+                        // let everyone go
+                        g.free = true;
+                        cv.notify_all();
+                        return;
+                    }
+                }
+            }
+            if g.states.iter().all(|s| *s == TState::Done) {
+                break;
+            }
+            // who holds the LMDB write lock: the thread parked between acquiring it and committing
+            lock_holder = None;
+            for (i, stt) in g.states.iter().enumerate() {
+                if let TState::AtPoint(name) = stt {
+                    if holds_write_lock(name) {
+                        lock_holder = Some(i);
+                    }
+                }
+            }
+            // enabled threads: at a point, and not about to block on the write lock held by another
+            let enabled: Vec<usize> = (0..nthreads)
+                .filter(|i| match &g.states[*i] {
+                    TState::AtPoint(name) => !((*name == "store:before-txn" || *name == "remove:before-txn") && lock_holder.is_some() && lock_holder != Some(*i)),
+                    _ => false,
+                })
+                .collect();
+            if enabled.is_empty() {
+                g.trace.push((usize::MAX, "DEADLOCK"));
+                g.free = true;
+                cv.notify_all();
+                break;
+            }
+            x ^= x >> 12;
+            x ^= x << 25;
+            x ^= x >> 27;
+            let r = x.wrapping_mul(0x2545F4914F6CDD1D);
+            let choice = match last {
+                Some(l) if enabled.contains(&l) && (r % 1000) >= switch => l,
+                _ => enabled[((r >> 20) as usize) % enabled.len()],
+            };
+            last = Some(choice);
+            g.turn = Some(choice);
+            cv.notify_all();
+        }
+    });
+    pocket_db::verif::clear();
+    *CTL.lock().unwrap() = None;
+    let trace: Vec<String> = ctl.0.lock().unwrap().trace.iter().map(|(t, n)| format!("{t}:{n}")).collect();
+    let mut resp = responses.lock().unwrap().clone();
+    resp.sort();
+    let rs: Vec<String> = resp.iter().map(|(t, n, r)| format!("{t}.{n}={r}")).collect();
+    let mut fin: Vec<String> = Vec::new();
+    for op in finalops.iter() {
+        let l = format!("; {op}");
+        let mut tt = Toks::new(&l);
+        let _ = tt.next();
+        fin.push(h.op(&mut tt));
+    }
+    format!("conc sched={} resp={} final={}", trace.join(","), rs.join(" ;; "), fin.join(" | "))
+}
+
+/// the operations threads may issue concurrently (a subset of Hist::op over a shared &Store)
+fn conc_op(st: &Store, _names: &[&'static str], t: &mut Toks) -> String {
+    let op = t.next();
+    match op {
+        "store" => {
+            let p = p_event(t);
+            let ev = match build_event(&p) {
+                Ok(e) => e,
+                Err(s) => return format!("ctor-{s}"),
+            };
+            match st.store_event(&ev) {
+                Ok(off) => format!("ok {off}"),
+                Err(e) => format!("err:{}", db_err(&e)),
+            }
+        }
+        "remove" => {
+            let id = t.b();
+            match st.remove_event(Id::from_bytes(arr32(&id))) {
+                Ok(()) => "ok".to_string(),
+                Err(e) => format!("err:{}", db_err(&e)),
+            }
+        }
+        "query" => {
+            let f = p_filter(t);
+            let _screen: Vec<(Vec<u8>, u128)> = t.list(&mut |t| (t.b(), t.n()));
+            let allow = t.n() != 0;
+            let lim = t.n() as u32;
+            let secs = t.n() as u64;
+            let _now = t.n();
+            let fo = match build_filter(&f) {
+                Ok(x) => x,
+                Err(s) => return format!("ctor-{s}"),
+            };
+            match st.find_events(&fo, allow, lim, secs, |_| ScreenResult::Match) {
+                Ok((evs, red)) => {
+                    // every returned reference must be readable in full
+                    let ids: Vec<String> = evs.iter().map(|e| format!("{}", hex(&e.id().as_slice()[..4]))).collect();
+                    let intact = evs.iter().all(|e| e.as_bytes().len() >= 152 && e.tags().is_ok());
+                    format!("ok [{}] red={}{}", ids.join(","), red, if intact { "" } else { " TORN" })
+                }
+                Err(e) => format!("err:{}", db_err(&e)),
+            }
+        }
+        _ => format!("HARNESS-ERROR conc op {op}"),
+    }
+}
+
+/// final observation after a concurrent run is taken with a separate `dbhist`-style obs by the caller
+pub fn _unused() {}
